@@ -118,7 +118,9 @@ def parax_sys(spec, w=None):
     if w is None:
         w = spec['wls'][spec['prim']]
     ns, _ = media(spec, w)
-    c = [0.0 if s['R'] == INF else 1.0 / float(s['R']) for s in spec['surfs']] + [0.0]
+    ish = spec['img'].get('shape') or {}
+    ci = 0.0 if ish.get('R', INF) == INF else 1.0 / float(ish['R'])
+    c = [0.0 if s['R'] == INF else 1.0 / float(s['R']) for s in spec['surfs']] + [ci]
     t = [float(s['t']) for s in spec['surfs']]
     mirror = [s['mat']['kind'] == 'mirror' for s in spec['surfs']] + [False]
     stop = 1 + [i for i, s in enumerate(spec['surfs']) if s.get('stop')][0]
@@ -126,7 +128,8 @@ def parax_sys(spec, w=None):
 
 
 def max_field(spec):
-    return max(f['y'] for f in spec['fields'])
+    """largest field magnitude (fields are non-negative unless the profile allows negative_fields)"""
+    return max(abs(f['y']) for f in spec['fields'])
 
 
 # ----------------------------------------------------------------------------
@@ -156,6 +159,8 @@ class Profile:
         self.max_n = 2.2
         self.zero_thickness = True
         self.positive_power = False
+        self.negative_fields = False     # allow field values of either sign (max field = largest magnitude)
+        self.curved_image = False        # allow a spherical image surface
         self.__dict__.update(kw)
 
 
@@ -240,7 +245,8 @@ def lens_spec(draw, profile='paraxial', min_surfs=1, max_surfs=None, force_infin
             sign = draw(st.sampled_from([1.0, -1.0]))
             kc = 0.0
             if P.allow_conic and draw(st.integers(0, 2)) == 0:
-                kc = draw(f(-4.0, 2.0))
+                # exact special conics matter (k = -1 takes the library's a == 0 branch for axial rays)
+                kc = draw(st.one_of(f(-4.0, 2.0), st.sampled_from([-1.0, -1.0, -0.5, 0.5, -2.0])))
                 if abs(1 + kc) < 1e-3:
                     # 0 < |1+k| << 1 is the degenerate corner of known finding C05-parabola-cancellation
                     # (a ~ 1e-16 in the conic quadratic); exact paraboloids take the library's a == 0 branch
@@ -377,6 +383,14 @@ def lens_spec(draw, profile='paraxial', min_surfs=1, max_surfs=None, force_infin
             fld['vx'] = round(draw(f(0.0, 0.3)), 3)
             fld['vy'] = round(draw(f(0.0, 0.3)), 3)
         fields.append(fld)
+    if P.negative_fields and draw(st.integers(0, 1)) == 0:
+        mode = draw(st.integers(0, 1))
+        for i, fld in enumerate(fields):
+            if mode == 0 or i % 2 == 0:
+                fld['y'] = -fld['y'] if fld['y'] else 0.0
+    if P.curved_image and draw(st.integers(0, 2)) == 0:
+        hb = max(abs(y_m) + abs(y_c), semi)
+        img['shape'] = dict(R=draw(st.sampled_from([1.0, -1.0])) * draw(f(4.0, 40.0)) * hb, k=0.0)
     ap_type = draw(st.sampled_from(P.ap_types))
     if ap_type == 'objectNA' and not finite:
         ap_type = 'EPD'
@@ -519,6 +533,10 @@ def spec_classes(spec):
         labs.add('object_medium')
     if spec['img']['mat']['kind'] != 'air':
         labs.add('image_medium')
+    if spec['img'].get('shape'):
+        labs.add('curved_image')
+    if any(fd['y'] < 0 for fd in spec['fields']):
+        labs.add('negative_field')
     ns, _ = media(spec, spec['wls'][spec['prim']])
     if ns[-1] != ns[-2]:
         labs.add('image_refracts')
